@@ -184,10 +184,11 @@ def main(tier, seed):
         for t in single_fault_traces(rc, kinds=("delay",), orders=("fifo", "timers")):
             traces.append(t)
             chk.case(("late-ack", delay_by, app_delay, tuple(t["faults"].items()), t["order"]), nontrivial=True)
-    # (i-d) a straggler: the copy of a duplicated frame turns up right after the first segment of the answer
-    for nq, nr, pwc, pws in ((3, 2, 2, 2), (4, 3, 1, 2), (5, 3, 3, 1)):
-        rc = tsmlib.rig_cfg(seg=50, nq=nq, nr=nr, pwc=pwc, pws=pws)
-        for t in single_fault_traces(rc, kinds=("dup",), orders=("late-dup",)):
+    # (i-d) a straggler: a frame held back by the medium turns up right after the first segment of the answer (the answer goes
+    # out at the very instant the straggler is due: request phase repaired at the segment timeout, then the application's delay)
+    for nq, nr, pwc, pws, delay_by, app_delay in ((3, 2, 2, 2, 1500, 500), (4, 3, 1, 2, 1500, 500), (3, 3, 2, 1, 2000, 1000)):
+        rc = tsmlib.rig_cfg(seg=50, nq=nq, nr=nr, pwc=pwc, pws=pws, delay_by=delay_by, app_delay=app_delay)
+        for t in single_fault_traces(rc, kinds=("delay",), orders=("late-dup",)):
             traces.append(t)
             chk.case(("straggler", nq, nr, pwc, pws, tuple(t["faults"].items())), nontrivial=True)
     # (ii) every single fault at every frame, two scheduler orders; windows 1..8
